@@ -25,7 +25,8 @@ H(Act) == Len(hist) < Depth /\ Act /\ hist' = Append(hist, last')
 HStart == \E dt \in Dts : H(Call(dt, "start", A, FALSE))
 HAdvance == \E dt \in Dts : H(Call(dt, "advance", <<>>, FALSE))
 HSet == \E dt \in Dts : H(Call(dt, "set", B, FALSE))
-HFinish == \E dt \in Dts, rs \in BOOLEAN : H(Call(dt, "finish", E, rs))
+\* finishing with the start message as well: the same object is then started again with an identical first frame
+HFinish == \E dt \in Dts, rs \in BOOLEAN, fm \in {E, A} : H(Call(dt, "finish", fm, rs))
 HNext == HStart \/ HAdvance \/ HSet \/ HFinish
 HSpec == HInit /\ [][HNext]_hvars
 \* only the distance to the next permitted redraw matters, not the absolute time
@@ -35,6 +36,7 @@ PFrame == [][FrameOK']_hvars
 PThrottle == [][ThrottleOK']_hvars
 PLine == [][LineOK']_hvars
 PQuiet == [][QuietOK']_hvars
+PCurrent == [][CurrentShownFor(cfg, last', term, term', ind'.message)]_hvars
 \* A: the throttle is armed by start() as well
 AFirst == [][(last'.op = "advance" /\ last'.frames # <<>>) => clock' >= ind.update]_hvars
 Emit == Len(hist) = Depth => PrintT(ToJson([cfg |-> cfg, events |-> hist]))
